@@ -56,6 +56,14 @@ PROGS = [
     ("def prog(c: Parameter[Qmatrix[bool, 1, 4]], a: bool) -> bool:\n    return all(c[0]) or (any(c[0]) and a)\n", {"c": "tab14"}),
     ("def prog(k: Parameter[Qint[4]], a: Qint[4]) -> Qint[4]:\n    return a ^ k\n", {"k": "i4"}),
     ("def prog(k: Parameter[Qint[3]], a: Qint[3]) -> bool:\n    return a == k\n", {"k": "i3"}),
+    # the declared width of an integer parameter is wider than the values bound to it
+    ("def prog(c: Parameter[Qint[4]], a: bool) -> Qint[4]:\n    return c + 1 if a else c\n", {"c": "i4"}),
+    ("def prog(c: Parameter[Qint[4]], a: Qint[2]) -> Qint[4]:\n    return (c + a) + a\n", {"c": "i4"}),
+    ("def prog(c: Parameter[Qint[4]], a: Qint[2]) -> bool:\n    return (c + a) > 3\n", {"c": "i4"}),
+    ("def prog(s: Parameter[Qint[4]], x: Qint[4]) -> bool:\n    return (x[0] and s[0]) ^ (x[1] and s[1]) ^ (x[2] and s[2]) ^ (x[3] and s[3])\n", {"s": "i4"}),
+    ("def prog(c: Parameter[Qlist[Qint[4], 2]], a: Qint[2]) -> Qint[4]:\n    return c[0] + a + c[1]\n", {"c": "li2"}),
+    ("def prog(c: Parameter[Tuple[bool, Qint[4]]], a: Qint[2]) -> Qint[4]:\n    return (c[1] + a) if c[0] else (c[1] << 1)\n", {"c": "tbi"}),
+    ("def prog(c: Parameter[Qint[6]], a: Qint[4]) -> Qint[6]:\n    return (c << 2) + a\n", {"c": "i4"}),
 ]
 DOM = {
     "b": [False, True],
@@ -115,13 +123,33 @@ def random_family(tier):
 
 def make_items(tier, seed):
     u = universe()
+    # container values handed over as mutable lists and changed by the caller after the bind
+    mut = [dict(sp, mutable=True) for i, sp in enumerate(u) if any(isinstance(x, list) for v in sp["hist"] for x in v.values()) and i % 3 == 0]
     rf = random_family(tier)
+    mut += [dict(sp, mutable=True) for i, sp in enumerate(rf) if any(isinstance(x, list) for v in sp["hist"] for x in v.values()) and i % 2 == 0]
+    u = u + mut
     if tier == "thorough":
         return u + rf
     u = rf[:120] + u + rf[120:]
-    core = rf[:120] + [sp for i, sp in enumerate(u) if sp["fam"] == "param-history" and i % 2 == 0] + [sp for i, sp in enumerate(u) if sp["fam"] == "param" and i % 5 == 0]
+    core = rf[:120] + mut[::4] + [sp for i, sp in enumerate(u) if sp["fam"] == "param-history" and i % 2 == 0] + [sp for i, sp in enumerate(u) if sp["fam"] == "param" and i % 5 == 0]
     rest = [sp for sp in u if sp not in core]
     return slice_quick(core + rest, seed, len(core), 150)
+
+
+def mutval(v):
+    return [mutval(x) for x in v] if isinstance(v, (list, tuple)) else v
+
+
+def scramble(x):
+    if isinstance(x, list):
+        for e in x:
+            scramble(e)
+        x.reverse()
+        for i, e in enumerate(x):
+            if isinstance(e, bool):
+                x[i] = not e
+            elif isinstance(e, int):
+                x[i] = (e + 1) % 4
 
 
 def pyval(v):
@@ -147,7 +175,7 @@ def check_item(spec):
     exprs = []
     judged = 0
     for step, v in enumerate(spec["hist"]):
-        kw = {k: pyval(x) for k, x in v.items()}
+        kw = {k: (mutval(x) if spec.get("mutable") else pyval(x)) for k, x in v.items()}
         if spec.get("korders", [spec["korder"]] * (step + 1))[step] == "rev":
             kw = dict(reversed(list(kw.items())))
         try:
@@ -159,6 +187,11 @@ def check_item(spec):
                 res["findings"].append({"kind": "bind-raises", "what": "bind(%s) raises %s: %s" % (kw, type(e).__name__, str(e)[:100]), "cex": {}, "replayed": True})
                 res["cls"] = "judged"
             break
+        if spec.get("mutable"):
+            # the caller goes on using (and changing) the objects it passed: the bound function was
+            # specialised to the values they had when bind was called
+            for x in kw.values():
+                scramble(x)
         if ast.dump(u.fun_ast) != dump0 or sorted(u.parameters) != params0:
             res["findings"].append({"kind": "unbound-modified", "what": "bind(%s) changed the unbound object's AST/parameters" % kw, "cex": {}, "replayed": True})
         exprs.append(str(qf.expressions))
